@@ -29,7 +29,7 @@ AGG = {
                      "declarations with implementing definitions (documented or not), ordinary commands; projection "
                      "compared: the argument of every function directive stemming from a function/macro"),
     "C09": dict(invs=["C09_Classes"], judge=lambda b: not b["dimpl"],
-                quick=[("MC_C09", 5, 2)], thorough=[("MC_C09", 7, 3)], sim=[("MC_C09", 16, 4)],
+                quick=[("MC_C09", 5, 2), ("MC_C09b", 8, 1)], thorough=[("MC_C09", 7, 3), ("MC_C09b", 11, 1)], sim=[("MC_C09", 16, 4)],
                 rule="TLC enumerates class structures (bases, attributes with/without default, members with 0-2 types "
                      "incl. args, constructors, implementing functions/macros with 1-4 parameters under the member "
                      "strip pattern, nesting); projection compared: py:class/py:method/py:attribute nesting and order, "
@@ -207,6 +207,10 @@ def walk_property(run):
                 "snapshots (paths and bytes) of the sandbox and captured stdout; compared: created/changed/deleted paths "
                 "against the output directory, and stdout against the concatenation of the written pages")
     walkh.replay(run, pid, res.lines.get("BEH", []), run.seed, limit=6000 if q else 60000)
+    if pid == "C14":
+        walkh.two_inputs_case(run)
+    if pid == "C15":
+        walkh.script_entry_case(run)
     # binding B: recorded walks over random trees (deeper, more names and patterns than the menus), validated by TLC
     import walktrace
     walktrace.run(run, pid, run.seed, 160 if q else 3000)
@@ -489,6 +493,7 @@ def c05(run):
     run.add_tlc("MC_C05(simulate, files up to 60 symbols)", res)
     lexh.replay(run, "C05", [b for b in res.lines.get("BEH", []) if len(b["text"]) > 20], run.seed + 1, limit=3000 if q else 30000)
     dispatch_hygiene(run, "C05")
+    lexh.big_file_check(run)
     # balanced function/macro/class blocks, documented or not, in any letter case and layout: processed to completion
     import aggfamily
     cat = lib.run_tlc("MC_C05", gen_cfg(C05_CONFIGS["bracket"], maxlen=6), coverage=False, tags=("TRIVIA",)).lines["TRIVIA"][0]
@@ -649,7 +654,8 @@ def c10(run):
         res = lib.run_tlc("MC_C10", C10_CFG.format(dev="CurrentDev", maxv=3 if q else 4, invs="INVARIANT Emit"), coverage=False)
         run.add_tlc("MC_C10(Dev=Current)", res)
     valuesh.replay(run, res.lines.get("BEH", []), run.seed)
-    run.assumptions += ["argument values without line breaks; option() with 2 or 3 arguments; set() with a name",
+    valuesh.crlf_cases(run)
+    run.assumptions += ["argument values without line breaks (three fixed CRLF cases with values that span lines aside); option() with 2 or 3 arguments; set() with a name",
                         "help text and default of an option are compared as written (quotes included)"]
     return ("TLC enumerates set() with 0..n values and option() with/without default over 15 argument texts (identifier, "
             "unquoted incl. escaped quotes at either end and ';', quoted incl. empty, one character, escaped quotes at either "
